@@ -35,8 +35,8 @@ WRAPPERS = ['Int8', 'Int16', 'Int32', 'Int64', 'Uint8', 'Uint16', 'Uint32', 'Uin
 WRAP_T = {'Int8': 'i8', 'Int16': 'i16', 'Int32': 'i32', 'Int64': 'i64', 'Uint8': 'u8', 'Uint16': 'u16', 'Uint32': 'u32',
           'Uint64': 'u64', 'SingleFloat': 'f32', 'DoubleFloat': 'f64', 'String': 'str', 'Boolean': 'bool'}
 EPOCH = _dt.datetime(1904, 1, 1)
-US_MIN = -5 * 10 ** 15          # ~1745
-US_MAX = 5 * 10 ** 15           # ~2062
+US_MIN = -5 * 10 ** 16          # ~ year 320
+US_MAX = 2 * 10 ** 17           # ~ year 8240
 
 NAMES = st.one_of(
     st.sampled_from(['g', 'Group', 'c', 'a b', "it's", 'x/y', "'", '/', '', "''", "'/'", "a'/'b", 'é', '日本', ' ', 'g\x00h',
@@ -49,8 +49,9 @@ INT_BOUNDARY = [0, 1, -1, 2 ** 31 - 1, 2 ** 31, -2 ** 31, -2 ** 31 - 1, 2 ** 63 
 
 @st.composite
 def us_value(draw):
-    return draw(st.one_of(st.sampled_from([0, 1, -1, 999999, 3524551547000016, -500000, 16, 1000001]),
-                          st.integers(US_MIN, US_MAX)))
+    return draw(st.one_of(st.sampled_from([0, 1, -1, 999999, 3524551547000016, -500000, 16, 1000001,
+                                           9025516800000001, 18808761296123457, -9591955077000003]),
+                          st.integers(-5 * 10 ** 15, 5 * 10 ** 15), st.integers(US_MIN, US_MAX)))
 
 
 @st.composite
@@ -200,6 +201,19 @@ def program(draw, max_sessions=2, max_calls=3, max_objs=4, forms=None, names=Non
                     objs.append({'kind': 'channel', 'group': g, 'channel': c, 'form': form,
                                  'values': draw(channel_values(form, max_len)), 'props': draw(props(2))})
             calls.append(objs)
+            if draw(st.integers(0, 9)) == 0:
+                # a call the writer must reject without emitting anything: duplicate object path / unsupported property value
+                bad = [dict(o) for o in objs]
+                if draw(st.booleans()) or not bad:
+                    g, c, form = draw(st.sampled_from(chans))
+                    vals = draw(channel_values(form, 2))
+                    bad = bad + [{'kind': 'channel', 'group': g, 'channel': c, 'form': form, 'values': vals, 'props': []},
+                                 {'kind': 'channel', 'group': g, 'channel': c, 'form': form, 'values': vals, 'props': []}]
+                    if draw(st.booleans()):
+                        bad.append({'kind': 'group', 'group': draw(names), 'props': []})
+                else:
+                    bad[0] = dict(bad[0], props=list(bad[0].get('props') or []) + [['bad_value', 'unsupported', None]])
+                calls.append({'rejected': bad})
         sessions.append(calls)
     return {'version': draw(st.sampled_from([4712, 4713])), 'dest': dest, 'index': index, 'sessions': sessions,
             'rewrite': draw(st.sampled_from([None, None, 'one_segment', 'segment_per_object']))}
@@ -220,6 +234,8 @@ def us_to_dt64(us, unit='us'):
 def prop_python_value(kind, v):
     from nptdms import types
     from nptdms.timestamp import TdmsTimestamp
+    if kind == 'unsupported':
+        return object()
     if kind in ('int', 'float', 'bool', 'str'):
         return v
     if kind == 'npbool':
@@ -341,6 +357,7 @@ class ProgramModel(object):
         self.writes = OrderedDict()     # channel path -> [(type, values)]
         self.order = []                 # (group, channel) in order of first write
         self.groups = []
+        self.rejected_calls = 0
 
     def add_call(self, call):
         for o in call:
@@ -378,6 +395,15 @@ def run_program(prog, workdir):
         first = False
         with w:
             for call in calls:
+                if isinstance(call, dict):
+                    # deliberately unacceptable call: must be rejected, emits nothing, the session goes on
+                    try:
+                        w.write_segment(build_objects(call['rejected']))
+                    except Exception:       # noqa
+                        model.rejected_calls += 1
+                        continue
+                    return {'accepted': False, 'error': RuntimeError('call expected to be rejected was accepted'),
+                            'model': model}
                 try:
                     objs = build_objects(call)
                     w.write_segment(objs)
